@@ -151,6 +151,16 @@ def accessor_io_errors(repo, col):
                             for rn in names)
                         if not body_sites:
                             continue
+                        # best-effort removal of a scratch file: nothing a
+                        # reader relies on is lost when it was already gone
+                        if all(isinstance(s_[0].func, ast.Attribute) and
+                               s_[0].func.attr in ("unlink", "rmdir") or
+                               (call_name(s_[0]) or "") in (
+                                   "os.remove", "os.unlink", "os.rmdir",
+                                   "shutil.rmtree")
+                               for s_ in body_sites) and h.type is not None \
+                                and "FileNotFoundError" in norm(h.type):
+                            continue
                         n += 1
                         col.add(rule + ".no-swallow", fn,
                                 "except %s" % norm(h.type), ok,
@@ -199,6 +209,26 @@ def accessor_io_errors(repo, col):
                             if (isinstance(c.func, ast.Attribute) and
                                 c.func.attr == "unlink") or
                             (call_name(c) or "") in ("os.remove", "os.unlink")]
+                    # deleting what a failed write left behind is fine when
+                    # the open itself happened before the try: the only files
+                    # the handler can meet are files this call created
+                    def _is_open(c_):
+                        nm_ = call_name(c_) or ""
+                        return nm_ in ("open", "gzip.open", "io.open",
+                                       "os.open") or (
+                            isinstance(c_.func, ast.Attribute)
+                            and c_.func.attr == "open")
+                    opens_inside = any(
+                        isinstance(c_, ast.Call) and _is_open(c_)
+                        for b_ in st.body for c_ in ast.walk(b_))
+                    if dels and not opens_inside and \
+                            mname not in ("store_file", "store_chunk"):
+                        n += 1
+                        col.add(rule + ".no-delete-on-error", fn,
+                                "except %s" % norm(h.type), True,
+                                "clean-up of a file opened before the try",
+                                node=h)
+                        continue
                     if dels and mname not in ("store_file", "store_chunk"):
                         n += 1
                         col.add(rule + ".no-delete-on-error", fn,
@@ -549,6 +579,10 @@ def overwrite_and_gzip(repo, col):
                         isinstance(d.value, ast.Call) and (fn.module.resolve(
                             call_name(d.value) or "") or "") == "os.open"
                         for d in defs.get(c.args[0].id, [])))):
+                continue
+            # GzipFile(fileobj=f): wraps a file that was opened elsewhere,
+            # its own mode string creates / truncates nothing
+            if nm == "gzip.GzipFile" and kwarg(c, "fileobj") is not None:
                 continue
             mode = None
             if nm in ("gzip.open", "open", "io.open", "gzip.GzipFile"):
